@@ -358,7 +358,7 @@ func (ps *parser) readFuncName() (string, error) {
 		if t.kind == "eof" || (t.bol && sb.Len() > 0) {
 			return "", ps.errf("bad function name %q", sb.String())
 		}
-		if t.kind == "op" && t.text != "." && t.text != "[" && t.text != "]" && t.text != "*" && t.text != "/" && t.text != "#" {
+		if t.kind == "op" && t.text != "." && t.text != "[" && t.text != "]" && t.text != "*" && t.text != "/" && t.text != "#" && t.text != ":" {
 			return "", ps.errf("bad stok %q in function name", t.text)
 		}
 		sb.WriteString(t.text)
@@ -1157,6 +1157,9 @@ func (ps *parser) parseMul() (*Expr, error) {
 }
 
 func (ps *parser) parseUn() (*Expr, error) {
+	if ps.isID("forall") || ps.isID("exists") {
+		return ps.parseQuant()
+	}
 	if ps.isOp("!") || ps.isOp("-") {
 		t := ps.next()
 		a, err := ps.parseUn()
@@ -1169,7 +1172,7 @@ func (ps *parser) parseUn() (*Expr, error) {
 }
 
 // typeArgFuncs take a Go type as their last argument (raw text).
-var typeArgFuncs = map[string]bool{"typeis": true, "as": true, "tagof": true, "zero": true, "zeroarr": true}
+var typeArgFuncs = map[string]bool{"typeis": true, "as": true, "tagof": true, "zero": true, "zeroarr": true, "all": true}
 
 func (ps *parser) parseRawType() (*Expr, error) {
 	// read tokens up to the matching ')' or a top-level ','
@@ -1218,7 +1221,9 @@ func (ps *parser) parsePostfix(modItem bool) (*Expr, error) {
 			for !ps.isOp(")") {
 				var a *Expr
 				var err error
-				if typeArgFuncs[t.text] && (len(call.Args) >= 1 || t.text == "tagof" || t.text == "zero" || t.text == "zeroarr") {
+				if typeArgFuncs[t.text] && t.text == "all" && len(call.Args) >= 1 {
+					a, err = ps.parseExpr()
+				} else if typeArgFuncs[t.text] && (len(call.Args) >= 1 || t.text == "tagof" || t.text == "zero" || t.text == "zeroarr" || (t.text == "all" && len(call.Args) == 0)) {
 					a, err = ps.parseRawType()
 				} else if modItem {
 					a, err = ps.parsePostfix(true)
